@@ -136,7 +136,9 @@ AcceptRetW(r, res, joined) ==
     \* (a failure / interrupt normally goes through CloseBegin .. CloseEnd; one that arrives
     \*  after a shutdown() has already stopped the runners does not)
     /\ (r = 1 /\ phase[r] = "running") => (shut # "none" \/ (Failed = {} /\ Kbd = {} /\ ~sigint))
-    /\ phase[r] # "closing"
+    \* (an interrupt that arrives while the runners are being closed aborts the closing: what is
+    \*  left of it is done by the event loop's own shutdown, then accept() ends)
+    /\ (phase[r] # "closing" \/ Kbd # {} \/ sigint)
     /\ phase' = [phase EXCEPT ![r] = "ended"]
     /\ result' = [result EXCEPT ![r] = res]
     /\ guard' = 0
@@ -180,6 +182,14 @@ Step(p) ==
 
 End(p, how) ==
     /\ pst[p] = "running" /\ how \in Ends[p] /\ (Coroutine(p) => ~After)
+    /\ pst' = [pst EXCEPT ![p] = "done"]
+    /\ endhow' = [endhow EXCEPT ![p] = how]
+    /\ UNCHANGED <<phase, guard, starts, cleanleft, adoptret, sigint, shut, result, xst, h>>
+
+\* a coroutine payload answers its cancellation with an outcome of its own (it raises, or
+\* returns, from its cancellation handler instead of letting the cancellation pass)
+AnswerCancel(p, how) ==
+    /\ Coroutine(p) /\ endhow[p] = "cancelled" /\ pst[p] \in {"cancelled", "done"} /\ how \in Ends[p] /\ ~After
     /\ pst' = [pst EXCEPT ![p] = "done"]
     /\ endhow' = [endhow EXCEPT ![p] = how]
     /\ UNCHANGED <<phase, guard, starts, cleanleft, adoptret, sigint, shut, result, xst, h>>
